@@ -28,7 +28,8 @@ MANIFEST = {
             "and Python with serialization support on and omitted. Every header is compiled alone with -pedantic -Wall -Wextra -Werror "
             "-Wconversion ... (the project's flag set) by clang and gcc; every diagnostic is parsed (file, -W option, message) and must "
             "be explained by a listed known finding whose structural precondition holds for the input, else it is a violation. "
-            "An icontract post-condition on TokenEncoder.strop (token valid and unreserved for its category) runs in-process on the same inputs.",
+            "An icontract post-condition on TokenEncoder.strop (token valid and unreserved for its category) runs in-process on the same inputs."
+            " Three fixed sets are always included: namespaces related by string prefix; degenerate shapes (padding only, ports without integer attributes, constants of one kind, empty service halves, unions of empties, bit arrays only); C/C++ are also generated under each language option (serialization asserts compiled as real assert(), target endianness, capacity override, float support omitted for float-free sets). Every Python module is imported alone in a fresh interpreter, its annotations are evaluated and its classes default-constructed: an unresolved module reference is a violation. A translation unit in which the preprocessor replaced a DSDL-derived identifier (known findings) is not judged further and is counted.",
     "note": "Name sets folded onto one identifier by one-way stropping are avoided by the generator. cetl++14-17 cannot be compiled offline (CETL absent). "
             "Warnings outside the project's flag set are not requested.",
 }
